@@ -1,6 +1,7 @@
 package main
 
 import (
+	"go/token"
 	"fmt"
 	"strings"
 
@@ -19,6 +20,41 @@ const (
 
 func init() {
 	register("C06",
+		Rule{ID: "C06.p", Explain: "the n'th commitment is the n'th ProofU: in ProofList.GetProofU every counter that changes while the list is walked (other than the walk's own index) changes only for elements that are ProofUs - under the type test - so that disclosure proofs standing before or between the commitments of a combined session are not counted. (The issuer signs the U it finds there; a miscounted U makes the honest holder's credential invalid.)",
+			Run: func(P *Program, R *Report) {
+				fn := mustFunc(P, R, "C06.p", "gabi.(ProofList).GetProofU")
+				if fn == nil {
+					return
+				}
+				n, bad := 0, []string{}
+				allInstrs(fn, func(i ssa.Instruction) {
+					ph, ok := i.(*ssa.Phi)
+					if !ok || ph.Comment == "rangeindex" || !isIntegerType(ph.Type()) {
+						return
+					}
+					for _, e := range ph.Edges {
+						b, isB := e.(*ssa.BinOp)
+						if !isB || (b.Op != token.ADD && b.Op != token.SUB) || (b.X != ssa.Value(ph) && b.Y != ssa.Value(ph)) {
+							continue
+						}
+						n++
+						typed := false
+						for _, a := range controllingConds(b.Block()) {
+							v := a.V
+							if ex, isEx := v.(*ssa.Extract); isEx && ex.Index == 1 {
+								v = ex.Tuple
+							}
+							if ta, isTA := v.(*ssa.TypeAssert); isTA && a.Want == True && typeShort(ta.AssertedType) == "*gabi.ProofU" {
+								typed = true
+							}
+						}
+						if !typed {
+							bad = append(bad, P.Pos(b.Pos()))
+						}
+					}
+				})
+				R.decide("C06.p", "gabi.(ProofList).GetProofU:counts-ProofUs-only", "the counter changes only under the test that the element is a *ProofU", n >= 1 && len(bad) == 0, fmt.Sprintf("%d counter updates; outside the type test: %s", n, strings.Join(bad, ", ")), P.Pos(fn.Pos()))
+			}},
 		Rule{ID: "C06.a", Explain: "ConstructCredential returns a credential only if ProofS.Verify(pk, msg.Signature, context, nonce2) is true, the assembled signature verifies over [secret, attributes...] under the builder's key, and - when a witness is present - Witness.Verify(pk) returned nil and NonrevIndex() succeeded on the new credential.",
 			Run: func(P *Program, R *Report) { constructCredentialRule(P, R) }},
 		Rule{ID: "C06.b", Explain: "the assembled signature is (A, E) from the message, V = msg.V + vPrime (symbolic term), KeyshareP from the builder; the credential carries that signature, the builder's key, the verified message block and the message's witness.",
